@@ -7,7 +7,9 @@ import guards
 CLAIMS = ("R1 in ExternalSortExec::execute every path that sorts (reads order_by, directly or through generate_runs/merge_runs) and reaches a normal return also reads the fetch limit (a fused ORDER BY..LIMIT must be truncated on the spill path too); "
           "R2 wherever a value derived from SortExpr::direction decides `descending` of an arrow SortOptions or a conditional Ordering::reverse(), the same site takes NULL placement from SortExpr::nulls (never a constant); "
           "R4 every call of the inner-join-only spill probe (probe_partition) is dominated by the `join_type == Inner` and `filter.is_none()` tests; "
-          "R5 in the spilled sort (generate_runs, merge, streaming_k_way_merge) and spilled aggregation, evaluation errors are propagated, never turned into 'rows compare equal'.")
+          "R5 in the spilled sort (generate_runs, merge, streaming_k_way_merge) and spilled aggregation, evaluation errors are propagated, never turned into 'rows compare equal'; "
+          "R7 the spilled sort never decides an order from a subset of the keys: inside ExternalSortExec the order_by list is only iterated whole or handed on whole (no first()/last()/get(i)/[i]/split on it); "
+          "R8 the partition router shared by the spilled join and the spilled aggregation (partition_batch_by_hash) sends every input row to exactly one partition: each iteration of its row loop reaches the push, on every path (a skipped row is a lost group for GROUP BY / DISTINCT / UNION once they spill).")
 NOT_DECIDED = "equality of spilled and in-memory answers in general (values); compare_array_values' unsupported-type fallback is reported under C01.R2."
 
 SP = "physical::operators::spillable"
@@ -138,6 +140,63 @@ def run(F, R):
         outs = [c.fn.path for c in F.callers_of(m) if (F.bodies[c.fn.path].get("root") or c.fn.path) not in S]
         if m.startswith(SJ + "::") and m not in ("<" + SJ + " as " + TRAIT + ">::execute",):
             R.check(not outs or all("execute" in o for o in outs), "C08.R4", f"no-bypass:{m.rsplit('::', 1)[-1]}", f"{m} is called from outside the guarded spill path: {outs[:3]}", "", nontrivial=False)
+    whole_key_and_routing(F, R)
+
+
+def whole_key_and_routing(F, R):
+    R.rule("C08.R7", "K1 access discipline", "ExternalSortExec reads order_by only by whole-list iteration or by passing it on")
+    R.rule("C08.R8", "K3 post-dominance in a loop", "partition_batch_by_hash: every row-loop iteration reaches the push into a partition")
+    SUBSET = ("first", "last", "get", "index", "split_first", "split_last", "split_at", "get_unchecked", "first_mut", "nth", "take", "skip", "step_by")
+    n = 0
+    bad = []
+    for g in F.in_file("src/physical/operators/spillable.rs"):
+        b = F.bodies[g.path]
+        root = b.get("root") or g.path
+        if not b["file"].endswith("operators/spillable.rs") or F.bodies[root].get("self_ty") != ES:
+            continue
+        for c in g.calls():
+            if not c.args:
+                continue
+            recv = derives_from(g, [c.args[0]], lambda k, x: (k == "place" and ("order_by", ES) in place_fields(x) and x) or None, through_calls=False)
+            if not recv:
+                # through deref / as_slice adaptors
+                recv = derives_from(g, [c.args[0]], lambda k, x: (k == "place" and ("order_by", ES) in place_fields(x) and x) or None,
+                                    stop=lambda c_: c_.name.rsplit("::", 1)[-1] not in ("deref", "as_slice", "as_ref", "borrow", "clone"))
+            if not recv:
+                continue
+            n += 1
+            last = c.name.rsplit("::", 1)[-1]
+            if last in SUBSET and ("SortExpr" in (c.self_ty or "") or "SortExpr" in " ".join(c.argtys or [])):
+                bad.append((g, c, last))
+    R.floor("C08.R7", "uses of ExternalSortExec.order_by", n, 4)
+    seen = set()
+    for g, c, last in bad:
+        root = F.bodies[g.path].get("root") or g.path
+        if (root, last) in seen:
+            continue
+        seen.add((root, last))
+        R.bad("C08.R7", f"{root}:order_by.{last}", f"the spilled sort takes `{last}` of its ORDER BY list: a decision made from a subset of the sort keys (e.g. only the leading key) leaves rows that tie on it in arrival order, so the spilled answer differs from the in-memory one", g.loc(c.bb), dict())
+    R.ok("C08.R7", "order_by:whole-list-only", dict(uses=n, subset_uses=len(seen)))
+    # ---- R8
+    pb = F.fn(SP + "::partition_batch_by_hash")
+    loops = []
+    for sb in range(pb.n):
+        si = pb.switch_info(sb)
+        if not si or si[0] != "enum" or "Some" not in si[2]:
+            continue
+        o = origin(pb, "c:" + si[1][0])
+        if o[0] == "call" and o[1].name.rsplit("::", 1)[-1] == "next" and "Range<usize>" in (o[1].self_ty or ""):
+            loops.append((sb, o[1], si[2]["Some"]))
+    pushes = [c for c in pb.calls() if c.name.endswith("Vec::<T, A>::push") and c.argtys and c.argtys[-1] == "usize"]
+    R.floor("C08.R8", "row loops in partition_batch_by_hash", len(loops), 1)
+    R.floor("C08.R8", "row-index pushes", len(pushes), 1)
+    for sb, nx, body in loops[:1]:
+        # a path from the loop body back to the loop's `next` that avoids every push = a row that is routed nowhere
+        avoid = frozenset(c.bb for c in pushes)
+        skips = nx.bb in pb.reachable(body, avoid=avoid)
+        R.check(not skips, "C08.R8", "partition_batch_by_hash:every-row-routed", "an iteration of the row loop can reach the next row without pushing the row into any partition: the router is shared with the spilled aggregation (GROUP BY / DISTINCT / UNION), where e.g. a NULL key is a legitimate group, so those rows vanish once the operator spills", pb.loc(body), dict(pushes=len(pushes)))
+    users = {F.bodies[c.fn.path].get("root") or c.fn.path for c in F.callers_of(pb.path)}
+    R.ok("C08.R8", "partition_batch_by_hash:callers", dict(callers=sorted(users)), nontrivial=False)
 
 
 def _ord(g, c):
